@@ -157,6 +157,8 @@ class P:
         if self.info(line)[0] == "stall":
             return self.judge_stall(line, impl)
         proto, retry, gap, faults, msgs = self.info(line)
+        if "RUN=dial_" in impl and faults and faults[0][0] == 0:
+            return None      # the sink reset the very first connection while it was being set up: the producer never started (setup error)
         if "PANIC" in impl or "HANG" in impl or not impl.startswith("LINES"):
             return "producer crashed or hung: " + impl[-120:]
         m = re.match(r"LINES (.*?) ?\| EC=(\d+) \| CONNS=(\d+)", impl)
